@@ -1,11 +1,11 @@
 CFG = {
     "gen": [],
-    "props": ["EraVerif.Props.C06", "EraVerif.Props.C06s"],
+    "props": ["EraVerif.Props.C06", "EraVerif.Props.C06s", "EraVerif.Props.C05loop"],
     "required_theorems": ["timeout_always_rebroadcasts", "view0_times_out", "newview_pulls_forward",
                           "timeout_quorum_advances", "commit_quorum_advances", "honest_proposal_accepted",
                           "no_reachable_state_blocks", "views_synchronise", "timeout_round_advances",
                           "leader_proposal_accepted_everywhere", "sync_progress", "leader_rotation_bound",
-                          "progress_within_n_rounds"],
+                          "progress_within_n_rounds", "timer_fires", "deadline_rule", "message_keeps_deadline", "flood_cannot_postpone", "view0_bootstrap"],
     "technique": "Lean 4: enabling lemmas on the replica model + composite progress theorem over an explicit synchronous schedule on the "
                  "global code-level system; multi-replica simulation of real replicas (adversarial prefix, slow-storage/crash episode, "
                  "fair suffix must commit)",
@@ -30,13 +30,17 @@ CFG = {
                   "scheduler in the simulation); Byzantine validators are silent in the synchronous period; replicas without the "
                   "payload obtain the block by block sync (outside the model). Slow-storage episodes are run and monitored on the real "
                   "replicas only (the model has no notion of a handler waiting for its disk).",
-    "harness": "c06",
+    "harness": ["c06", "c05loop"],
     "replay_by_seed": True,
-    "n": {"quick": 1200, "thorough": 18000},
-    "rule": "N/150 cases: adversarial prefix as in C01 but 300 steps, then in rotation nothing / slow-storage episode and crash of "
+    "n": {"quick": [1200, 1500], "thorough": [18000, 30000]},
+    "rule": "(1) N/150 cases: adversarial prefix as in C01 but 300 steps, then in rotation nothing / slow-storage episode and crash of "
             "every node / isolated-laggard episode, then the fair synchronous suffix (timers at every correct replica, every "
             "message delivered in order, blocks fetchable, Byzantine validators silent) must commit a new block at every correct "
-            "replica within n+8 rounds; non-trivial = distinct op whose outcome class differs from the modal class",
+            "replica within n+8 rounds; non-trivial = distinct op whose outcome class differs from the modal class. (2) the run-loop "
+            "harness of C05 (c05loop: the real StateMachine::run through its real input channel with a manual clock): the "
+            "premise 'timeouts keep firing' is the code's own job — the view timer is a deadline fixed when the view is "
+            "entered, not an idle timer, so traffic cannot postpone it (theorems timer_fires, deadline_rule, "
+            "message_keeps_deadline, flood_cannot_postpone)",
     "trusted": ["hand-written replica model", "simulation scheduler as the fair network"],
     "assumptions": ["correct weight >= quorum; leaders rotate round-robin over all validators (at least one correct leader within "
                     "n views)"],
